@@ -45,3 +45,8 @@ def correspond(ctx):
 
 def search(ctx, disagreements, proof_info):
     return generic_search(ctx, disagreements, getattr(ctx, "jobs", None) or jobs(ctx.tier), FMT)
+
+
+def replay(ctx, payload):
+    from explore import generic_replay
+    return generic_replay(ctx, payload, jobs("thorough"))
